@@ -304,20 +304,37 @@ func typeExpr(t reflect.Type) string {
 func denoteStruct(t string, v rb.JV, num numberOf) exp {
 	rt := rb.MustType(t)
 	e := exp{m: mustOK, kind: "struct"}
+	unknown := false
 	for i, key := range v.Keys {
 		idx, ft, why := structField(rt, key)
 		if idx == nil {
 			_ = why
-			e.m = worst(e.m, okOrFail)
+			unknown = true
 			continue
 		}
 		k := denote(typeExpr(ft), v.E[i], num)
-		e.m = worst(e.m, k.m)
-		if k.m == mustFail && e.why == "" {
+		if k.m == mustFail {
 			e.why = "field " + key + ": " + k.why
 		}
-		e.keys = append(e.keys, fmt.Sprint(idx))
-		e.kids = append(e.kids, k)
+		// a later property naming the same field (Go name and json tag) overrides the earlier one
+		dup := false
+		for q := range e.keys {
+			if e.keys[q] == fmt.Sprint(idx) {
+				e.kids[q] = k
+				dup = true
+			}
+		}
+		if !dup {
+			e.keys = append(e.keys, fmt.Sprint(idx))
+			e.kids = append(e.kids, k)
+		}
+	}
+	e.m = mustOK
+	for _, k := range e.kids {
+		e.m = worst(e.m, k.m)
+	}
+	if unknown {
+		e.m = worst(e.m, okOrFail)
 	}
 	return e
 }
